@@ -298,13 +298,13 @@ mutual
       (if f.isLiteral then z else (f.isZero && z), f.result ++ out)
 end
 
-/-- `format_version(vinfo, raw_pattern)` -/
+/-- `format_version(vinfo, raw_pattern)`: only optional groups are omitted; the root of the tree
+    (the whole pattern) is rendered even when all its parts are zero (v2version.py after the
+    all-zero repair) -/
 def formatVersion (v : VInfo) (raw : Str) : Except PErr Str :=
   match parseSegtree raw with
   | .error e => .error e
-  | .ok items =>
-    let (isZero, parts) := formatSegs (formatPartValues v) items
-    .ok (if isZero then [] else parts)
+  | .ok items => .ok (formatSegs (formatPartValues v) items).2
 
 /-! ### bumping -/
 
